@@ -261,6 +261,20 @@ pub fn scenario(seed: u64, enumerated: Option<(u64, u64)>) -> Made {
                 let at = rng.usize(m.answers.len() + 1);
                 m.answers.insert(at, stranger);
             }
+            if enumerated.is_none() && rng.chance(1, 5) {
+                // a record the daemon has no use for (HINFO) or does not know (HTTPS) rides along, often as the very last
+                let extra = if rng.chance(1, 2) {
+                    wire::rec(&wire::name("rider.local"), 13, 1, 120, wire::RData::Raw(vec![3, b'x', b'8', b'6', 5, b'L', b'i', b'n', b'u', b'x']))
+                } else {
+                    wire::rec(&wire::name("rider.local"), 65, 1, 120, wire::RData::Raw(vec![0, 1, 0, 0, 1, 0, 3, 2, b'h', b'2']))
+                };
+                if rng.chance(1, 2) {
+                    m.additionals.push(extra);
+                } else {
+                    let at = rng.usize(m.answers.len() + 1);
+                    m.answers.insert(at, extra);
+                }
+            }
             if enumerated.is_none() && rng.chance(1, 6) {
                 // a duplicate of the same packet
                 w.inject_msg(h, 2, src, &m);
